@@ -38,7 +38,7 @@ impl BmCtl for AtomicBitmap {
         match CTOR.with(|c| c.get()) {
             1 => tracked_region_std::<AtomicBitmap>(spec, file, false),
             2 => tracked_region_std::<AtomicBitmap>(spec, file, true),
-            _ => tracked_region(spec, file, AtomicBitmap::new(spec.size, NonZeroUsize::new(ps).unwrap())),
+            _ => tracked_region(spec, file, crate::world::grown_bitmap(spec.size, ps)),
         }
     }
     #[cfg(feature = "xen")]
@@ -59,7 +59,7 @@ impl BmCtl for Option<AtomicBitmap> {
     const TRACKED: bool = true;
     #[cfg(not(feature = "xen"))]
     fn mkreg(spec: &RegSpec, file: Option<&std::fs::File>, ps: usize) -> GuestRegionMmap<Self> {
-        tracked_region(spec, file, Some(AtomicBitmap::new(spec.size, NonZeroUsize::new(ps).unwrap())))
+        tracked_region(spec, file, Some(crate::world::grown_bitmap(spec.size, ps)))
     }
     #[cfg(feature = "xen")]
     fn mkreg(_: &RegSpec, _: Option<&std::fs::File>, _: usize) -> GuestRegionMmap<Self> {
@@ -474,8 +474,10 @@ fn one_op<B: BmCtl>(w: &mut GmWorld<B>, tracked: bool, step: usize) -> Step {
     let addr = gen_gaddr(&w.regs);
     let first = w.find(addr);
     let room = w.run(addr, 13_000);
-    let kinds = if tracked { 19 } else { 15 };
-    let kind = cx().a(kinds);
+    // descriptor and scripted-stream transfers (15..) run in the untracked worlds too: their
+    // contents and stray-access oracles belong to C03
+    let _ = tracked;
+    let kind = cx().a(19);
     let ga = GuestAddress(addr);
     let mut st = Step { desc: String::new(), kind: "", got: GO::Unit, exp: None, wrote: vec![], failed_fd: vec![], effect: Effect::NoWrite, free_result: false };
     let _ = step;
